@@ -7,6 +7,7 @@ import (
 	"fmt"
 	"os"
 	"path/filepath"
+	"sort"
 	"strings"
 	"sync"
 	"sync/atomic"
@@ -311,6 +312,18 @@ func taskrunEngine(raw json.RawMessage) (res interface{}, err error) {
 	for _, l := range strings.Split(string(b), "\n") {
 		if l != "" {
 			obs.Trace = append(obs.Trace, l)
+		}
+	}
+	// per-task trace files "$TRACE.<suffix>" (used by tasks that run concurrently and write long lines), in name order
+	if extra, _ := filepath.Glob(trace + ".*"); extra != nil {
+		sort.Strings(extra)
+		for _, f := range extra {
+			b, _ := os.ReadFile(f)
+			for _, l := range strings.Split(string(b), "\n") {
+				if l != "" {
+					obs.Trace = append(obs.Trace, l)
+				}
+			}
 		}
 	}
 	out.mu.Lock()
